@@ -62,7 +62,23 @@ impl Ctx {
     }
 }
 
+/// milliseconds since this process started
+pub fn process_ms() -> u64 {
+    static T0: std::sync::OnceLock<std::time::Instant> = std::sync::OnceLock::new();
+    T0.get_or_init(std::time::Instant::now).elapsed().as_millis() as u64
+}
+
 fn main() {
+    let _ = process_ms();
+    std::thread::spawn(|| loop {
+        std::thread::sleep(std::time::Duration::from_secs(2));
+        let t = e2e::CASE_STARTED_MS.load(std::sync::atomic::Ordering::Relaxed);
+        if t != 0 && process_ms().saturating_sub(t) > e2e::CASE_LIMIT_S * 1000 {
+            eprintln!("oxiverif: a library call has not returned after {} s; aborting (the case is noted for the check)", e2e::CASE_LIMIT_S);
+            std::process::abort();
+        }
+    });
+
     let args: Vec<String> = std::env::args().collect();
     if args.len() < 2 {
         eprintln!("usage: oxiverif <stream> [--seed S] [--n N] [--out F] [--stats F] [--thorough]");
